@@ -102,29 +102,35 @@ func (d *Provider) Get(name string) (interface{}, error) {
 		return instance, nil
 	}
 	if factory, exist := d.factories[name]; exist {
+		depth := len(d.callstack)
 		d.callstack = append(d.callstack, name)
 		instance, err := factory(d)
 		if err != nil {
-			return nil, goaterr.Errorf("%v (dependency callstack: %v)", err, d.callstack)
+			err = goaterr.Errorf("%v (dependency callstack: %v)", err, d.callstack)
+			d.callstack = d.callstack[:depth]
+			return nil, err
 		}
+		d.callstack = d.callstack[:depth]
 		if instance == nil {
 			return nil, goaterr.Errorf("factory for %s return nil as instance", name)
 		}
-		d.callstack = d.callstack[:len(d.callstack)-1]
 		d.clean(name)
 		d.instances[name] = instance
 		return instance, nil
 	}
 	if factory, exist := d.defaultFactories[name]; exist {
+		depth := len(d.callstack)
 		d.callstack = append(d.callstack, name)
 		instance, err := factory(d)
 		if err != nil {
-			return nil, goaterr.Errorf("%v (dependency callstack: %v)", err, d.callstack)
+			err = goaterr.Errorf("%v (dependency callstack: %v)", err, d.callstack)
+			d.callstack = d.callstack[:depth]
+			return nil, err
 		}
+		d.callstack = d.callstack[:depth]
 		if instance == nil {
 			return nil, goaterr.Errorf("default factory for %s return nil as instance", name)
 		}
-		d.callstack = d.callstack[:len(d.callstack)-1]
 		if d.autoclean {
 			delete(d.defaultFactories, name)
 		}
